@@ -2284,9 +2284,11 @@ fn declaration_section(parser: &LLP) -> bool {
             consuming the `type` after consuming the `=`. `class` is not given
             the same treatment due to the rest of the struct type parsing.
         */
-        (Some(TT::Op(OK::Equal(_)) | TT::Keyword(KK::Packed)), Some(TT::Keyword(KK::Class))) => {
-            false
-        }
+        // (`array of class of TFoo`: a class reference as the element type)
+        (
+            Some(TT::Op(OK::Equal(_)) | TT::Keyword(KK::Packed | KK::Of)),
+            Some(TT::Keyword(KK::Class)),
+        ) => false,
         (_, Some(TT::Keyword(kk) | TT::IdentifierOrKeyword(kk))) => match kk {
             KK::Exports
             | KK::Begin
